@@ -7,7 +7,7 @@ BOUNDS = {
     "quick": "(a) partition_volume(v, max_volume=m) in exact real arithmetic, v>=0 and m>0 symbolic, <=8 steps; (b) the same function bit-precisely in "
              "IEEE-754 binary64 for <=2 steps with integer-valued m in [1,1000] and 0<=v<=1e15; (c) EvoWorklist/FluentWorklist.transfer of one symbolic "
              "volume with symbolic worklist max_volume, <=4 steps, auto_split on and off, plate/trough combinations; (d) reagent_distribution with "
-             "multi_disp 1..8 and symbolic volume / max_volume",
+             "multi_disp 1..8 and symbolic volume / max_volume; (c') the same transfer after ANOTHER worklist (other device, own symbolic max_volume) has transferred a symbolic volume earlier in the same process",
     "thorough": "(a) <=16 steps; (b) <=3 steps; (c) <=6 steps and two volumes per call; (d) multi_disp 1..12",
 }
 OUTSIDE = "more steps than the bound; in binary64 arithmetic: non-integer max_volume and volumes needing more steps than stated (Real arithmetic covers them exactly)"
